@@ -98,6 +98,12 @@ func (badgerkv *BadgerKV) DeletePrefix(prefix []byte) error {
 			}
 			return nil
 		})
+		if err == badger.ErrConflict {
+			// a concurrent write touched a key this scan read (the scan also reads
+			// the first key after the prefix): nothing was deleted, scan again
+			found = true
+			continue
+		}
 		if err != nil {
 			return err
 		}
